@@ -2,6 +2,7 @@ import MW.Inv.GReach
 import MW.Props.C05
 import MW.Inv.WorldInv
 import MW.Inv.Demo
+import MW.Inv.WorldPayable
 /-!
 # C02 — Contract-held staked asset always equals what it owes (solvency)
 
@@ -112,12 +113,50 @@ theorem C02_solvency {env : Env} {info : Info} {msg : InstantiateMsg} {c0 : CSta
     (r.1.bal r.1.self r.1.c.config.proto.ibcDenom : Int) + r.2.swept + r.2.paid = owedD r.1.c + r.2.donD :=
   (world_history_winv hi self pfx t hgt evs hok).n2
 
+open MW.Chain in
+/-- **"therefore every entitled Withdraw, FeeWithdraw and recovery re-send is paid in full".**  Along
+every history of the chain model that satisfies the honest-environment conditions, the contract's bank
+balance of the staked asset (plus the swept term, which is zero unless the operator resumed with an LST
+total of zero over a non-zero staked total) covers *at the same time*: what every open request of every
+Received batch is entitled to (`floor(received × own / total)` each), the retained fees, the refunded
+transfers awaiting re-send and what was donated.  So paying any of them never uses tokens that back
+another party's claim. -/
+theorem C02_covers {env : Env} {info : Info} {msg : InstantiateMsg} {c0 : CState} {out : List SubMsg}
+    (hi : instantiate env info msg = .ok (c0, out)) (self pfx : String) (t hgt : Nat) (evs : List Event)
+    (hok : AllOK (bootWorld c0 self pfx t hgt) evs) :
+    let r := runW (bootWorld c0 self pfx t hgt) {} evs
+    (owedOpenAll r.1.c : Int) + r.1.c.st.totalFees + refundableSum r.1.c r.1.c.config.proto.ibcDenom + r.2.donD
+      ≤ r.1.bal r.1.self r.1.c.config.proto.ibcDenom + r.2.swept := by
+  intro r
+  have hn2 := (world_history_winv hi self pfx t hgt evs hok).n2
+  have hcr : CReach (bootWorld c0 self pfx t hgt).c := ⟨env, info, msg, c0, out, [], hi, rfl⟩
+  have hj := runW_jinv evs hcr (jinv_boot hi self pfx t hgt)
+  unfold JInv at hj
+  simp only [owedD] at hn2
+  have e1 : r = runW (bootWorld c0 self pfx t hgt) {} evs := rfl
+  rw [← e1] at hn2 hj
+  push_cast at hn2
+  omega
+
+open MW.Chain in
+/-- in particular, in every reachable contract state the claim of any single open request of a Received
+batch is one of the claims `C02_covers` covers -/
+theorem entitled_claim_within_cover (c : CState) (hr : CReach c) (k : Nat) (u : String) (b : Batch) (recv : Nat) (r : Req)
+    (hb : c.batches.find? k = some b) (hst : b.status = .received) (hrecv : b.received = some recv)
+    (hreq : findReq c.reqs k u = some r) : recv * r.amount / b.total ≤ owedOpenAll c :=
+  claim_le_owedOpenAll (cinv_reach hr) hb hst hrecv hreq
+
 /-! non-vacuity of `C02_solvency`: the demo history ends with balance 100, owed 580 (480 received,
 100 fees), 480 paid out -/
 section Demo
 open MW.Chain MW.Chain.Demo
 #guard (demoBoot.map fun w => allOKb w demoEvents) == some true
 #guard (demoBoot.map fun w => let r := runW w {} demoEvents; ((summary r.1 r.2).drop 7).take 3) == some [100, 580, 480]
+-- non-vacuity of `C02_covers`: just before the withdrawal of the demo history the open request is owed 480
+-- and the contract holds exactly 480 (no fees, nothing refundable, nothing swept)
+#guard (demoBoot.map fun w => let r := runW w {} (demoEvents1 ++ demoEvents2.take 4)
+          (owedOpenAll r.1.c, r.1.c.st.totalFees, refundableSum r.1.c demoD, r.1.bal demoSelf demoD, r.2.swept,
+           allOKb w (demoEvents1 ++ demoEvents2.take 4))) == some (480, 0, 0, 480, 0, true)
 end Demo
 
 /-- non-vacuity: received 1000 for total 300 with open requests 100 and 200: owed 333 + 666 ≤ 1000 -/
